@@ -815,6 +815,10 @@ def run(ctx):
     returned = {l for c in group.chars for e in group.map[c] for l in P.char_literals(e)}
     rules.append(sC17.rule_chunk(ctx, _func, set(produced_letters(ctx)[2]), returned))
     rules.append(sC17.rule_cmp(ctx, _func, funcs))
+    rules.append(sC17.rule_cmptab(ctx, _func, set(produced_letters(ctx)[2])))
+    # pending finding (FINDING_2 of strengthening session H2, round 5): sC17.rule_cmpdim (C17-CMPDIM) reports the unmodified tree - the char exemption of __pyx_typeinfo_cmp
+    # returns `a->size == b->size` before the dimensionality / array extents are compared, so `char c[2]` equals `char c` (and `unsigned char c[3]`) and a struct view is
+    # re-acquired as another struct dtype without the format check.  Register it (rules.append(sC17.rule_cmpdim(ctx, _func, set(produced_letters(ctx)[2])))) once the repair is in.
     exp_d = _func(ctx, '__Pyx_TypeInfoToFormat')
     readers = ['\n'.join(d.body for d in funcs), _func(ctx, '__pyx_typeinfo_cmp').body, exp_d.body, fsec.raw]
 
